@@ -24,6 +24,10 @@ type AnalyzedProgram struct {
 func (self AnalyzedProgram) String() string {
 	imports := ""
 	for _, item := range self.Imports {
+		// Type imports are resolved by the analyzer: nothing may be left to import.
+		if len(item.ToImport) == 0 {
+			continue
+		}
 		imports += item.String() + "\n"
 	}
 	if imports != "" {
